@@ -656,7 +656,7 @@ Qed.
 Lemma validate_header hd p f : validate hd p = Ok f ->
   f_width f = h_width hd /\ f_height f = h_height hd /\ f_nframes f = h_frames hd /\ f_fmt f = h_fmt hd.
 Proof.
-  unfold validate. intros H.
+  unfold validate; rewrite ?frev_eq. intros H.
   destruct (compute_parents (rev (pi_layers_rev p))) as [ps|e|s]; cbn [rbind] in H; try discriminate.
   destruct (validate_tilesets (pi_palette p) (h_fmt hd) (pi_tilesets p)) as [tss|e|s]; cbn [rbind] in H; try discriminate.
   destruct (validate_layers (rev (pi_layers_rev p)) tss) as [u|e|s]; cbn [rbind] in H; try discriminate.
